@@ -133,7 +133,9 @@ def gen_cases(rng, tier, scale):
             flags, bp = 'BTI', '-'
         elif form == 'blockbp':
             two = rng.random() < 0.5
-            tpl = '{{#dump ' + argsrc + hsrc + (' as |first second|' if two else ' as |only|') + '}}body{{/dump}}'
+            # ... optionally followed by the whitespace-control tilde (the only token the grammar allows there)
+            tl = rng.choice(['', '', '~', ' ~'])
+            tpl = '{{#dump ' + argsrc + hsrc + (' as |first second|' if two else ' as |only|') + tl + '}}body{{/dump}}'
             flags, bp = 'BTi', ('2' + x('first') + ',' + x('second')) if two else ('1' + x('only'))
         else:
             if arity + hn == 0:
